@@ -83,6 +83,9 @@ RETS = {
     "ref": ("Tracked&", "return g_ret;", "Tracked& r = f({a}); ok = &r == &g_ret;"),
     "moveonly": ("std::unique_ptr<int>", "return std::make_unique<int>({i});", "std::unique_ptr<int> r = f({a}); ok = r && *r == {i};"),
     "tracked": ("Tracked", "return Tracked({i});", "Tracked r = f({a}); ok = r.v == {i};"),
+    # covariant pointer: the method returns RB2*, the definition (attached through the core API: the macro would give it the
+    # method's return type) returns RD2*, whose RB2 sub-object sits at a non-zero offset: the caller must get the adjusted pointer
+    "covptr": ("RB2*", "return &g_rd2;", "RB2* r = f({a}); ok = r == static_cast<RB2*>(&g_rd2) && r->rb == 5;"),
 }
 
 
@@ -110,8 +113,16 @@ def scenario(idx, kind, shape, pos, cat, ret="val"):
     o.append("struct EPad { virtual ~EPad() {} long epad[5] = {1, 2, 3, 4, 5}; };")
     o.append("struct E : EPad, %s { long ee[3] = {7, 8, 9}; };" % D)
     o.append("register_classes(%s);" % ", ".join(["B"] + (["D"] if dname else []) + (["Mid"] if shape == "two" else []) + ["E"]))
+    if ret == "covptr":
+        o.append("struct RB2 { virtual ~RB2() {} int rb = 5; }; struct RPad2 { virtual ~RPad2() {} long rp[2] = {1, 2}; };")
+        o.append("struct RD2 : RPad2, RB2 { int rd = 6; }; static RD2 g_rd2;")
     o.append("declare_method(%s, f, (%s));" % (rtype, ", ".join(mparams)))
-    o.append("define_method(%s, f, (%s)) {" % (rtype, ", ".join(dparams)))
+    if ret == "covptr":
+        o.append("static RD2* fimpl(%s);" % ", ".join(dparams))
+        o.append("static method_class(RB2*, f, (%s))::add_function<fimpl> YOMM2_GENSYM;" % ", ".join(mparams))
+        o.append("static RD2* fimpl(%s) {" % ", ".join(dparams))
+    else:
+        o.append("define_method(%s, f, (%s)) {" % (rtype, ", ".join(dparams)))
     o.append("    g_rep.ran = true;")
     o.append("    g_rep.copies = Tracked::copies; g_rep.moves = Tracked::moves;")
     o.append("    %s& d = %s;" % (D, deref))
